@@ -272,6 +272,7 @@ def directed():
     out.append(_case(True, [(gu[0], 1)], "all", "mut:unsigned to authic"))
     out.append(_case(False, [(ga[0], 1), (ga[1], 1), (ga[2], 1)], "once"))
     out.append(_case(False, [(b"", 1), (gu[0], 1)], "end", "empty") | {"ops": [["dgram", "", 1], ["dgram", gu[0].hex(), 1], ["all"], ["all"]]})
+    out += [dict(c, own=True) for c in out[:8]] + [dict(c, own=True) for c in out if c.get("kind", "").startswith("keep:full/full")][:4]
     # random / tiny
     for b in (b"b", b"bA", b"bAA", b"bAAA", b"l", b"l\x00", b"l\x00\x00", b"\x00", b"z", b"bAAAAAAB" + b"0" * 24, b"`AAA", b"cAAA" + b"A" * 40):
         out.append(_case(False, [(b, 1)], "all", "random"))
@@ -340,13 +341,16 @@ def generate(rng, tier):
         out.append(_case(authic, dg, svc, kind, keep=rcv))
         if rng.random() < 0.4:
             out[-1]["rxvid"] = rng.randrange(3)        # the receiver has a signer id of its own
+        if rng.random() < 0.3:
+            out[-1]["own"] = True                      # application-owned (empty) containers and keep handed to the constructor
     return out
 
 
 # --------------------------------------------------------------------------- implementation / oracle
 
 def run_impl(case):
-    m = mc.new_receiver(case["authic"], case.get("keep", "full"), **({"vid": case["rxvid"]} if "rxvid" in case else {}))
+    m = mc.new_receiver(case["authic"], case.get("keep", "full"), own=case.get("own", False),
+                        **({"vid": case["rxvid"]} if "rxvid" in case else {}))
     excs = mc.run_rx_ops(m, case["ops"])
     obs = mc.observe_rx(m)
     obs["excs"] = excs
@@ -365,6 +369,8 @@ def _compose(text, bodies):
 
 
 def oracle(case, obs):
+    if obs.get("not_adopted"):
+        return f"containers handed to the constructor are not the ones the Memoer uses: {obs['not_adopted']}"
     if any(obs["excs"]):
         return f"servicing the receive side raised: {obs['excs']}"
     if any(e[3] not in ("ok", "MemoErr") for e in obs["verify"]):  # noqa
